@@ -1413,7 +1413,9 @@ theorem C03_derivative_spline_periodic {K : Type} [Field K] [LinearOrder K] [IsS
   splineDeriv_one_eq_splineVal_periodic s τ hτ q N n T P t hper ht
 
 /-- **The model's `get_derivative_spline` builds exactly that spline**: new order `p−1`, knots `knots[1:-1]`
-(so `kn j = τ_{j+1}`), periodicity `k−1`, control net = the difference matrix applied along the direction, and
+(so `kn j = τ_{j+1}`; stated through the constructor's running maximum `Basis.cummax`, which is the identity for a
+sorted — in particular every valid — knot vector: since the repair of the tolerance-inversion finding the constructor
+stores `np.maximum.accumulate(knots)`), periodicity `k−1`, control net = the difference matrix applied along the direction, and
 each row of the difference matrix computes `p(v_{j+1} − v_j)/(τ_{j+p+1} − τ_{j+1})`
 (`v_{(j+1) % n}` for periodic directions). -/
 theorem C03_derivative_spline_model (o o' : Obj K) (tol : K) (dir : ℕ)
@@ -1422,7 +1424,9 @@ theorem C03_derivative_spline_model (o o' : Obj K) (tol : K) (dir : ℕ)
     o'.cps = Tensor.applyAxis (Obj.derivativeMatrix (o.basis dir) (o.cps.shape.getD dir 0)) o.cps dir ∧
     (∃ nb : Basis K, o'.bases = o.bases.set! dir nb ∧ nb.order = (o.basis dir).order - 1 ∧
       nb.periodic = max ((o.basis dir).periodic - 1) (-1) ∧
-      ∀ j, j + 2 < (o.basis dir).knots.size → nb.kn j = shiftKnots (o.basis dir).kn j) ∧
+      nb.knots = Basis.cummax ((o.basis dir).knots.extract 1 ((o.basis dir).knots.size - 1)) ∧
+      ((∀ i, i + 1 < (o.basis dir).knots.size → (o.basis dir).kn i ≤ (o.basis dir).kn (i + 1)) →
+        ∀ j, j + 2 < (o.basis dir).knots.size → nb.kn j = shiftKnots (o.basis dir).kn j)) ∧
     (∀ (n j : ℕ) (v : ℕ → K), (o.basis dir).periodic < 0 → j + 1 < n →
       (List.range n).foldl (fun acc i => acc +
           ((Obj.derivativeMatrix (o.basis dir) n).getD j #[]).getD i 0 * v i) 0
@@ -1432,9 +1436,10 @@ theorem C03_derivative_spline_model (o o' : Obj K) (tol : K) (dir : ℕ)
           ((Obj.derivativeMatrix (o.basis dir) n).getD j #[]).getD i 0 * v i) 0
         = Obj.dsCoef (o.basis dir) j * (v ((j + 1) % n) - v j)) := by
   obtain ⟨h1, h2, h3, h4, nb, h5, h6, h7, h8⟩ := getDerivativeSpline_ok o o' tol dir h
-  refine ⟨h1, h2, h3, h4, ⟨nb, h5, h6, h8, ?_⟩, ?_, ?_⟩
-  · intro j hj
-    exact extract_kn (o.basis dir) nb h7 j hj
+  refine ⟨h1, h2, h3, h4, ⟨nb, h5, h6, h8, h7, ?_⟩, ?_, ?_⟩
+  · intro hsort j hj
+    refine extract_kn (o.basis dir) nb ?_ j hj
+    rw [h7, Basis.cummax_extract_of_sorted _ _ _ (Basis.sorted_getD_of_kn _ hsort)]
   · intro n j v hper hj
     exact derivativeMatrix_row (o.basis dir) n j hper hj v
   · intro n j v hper hj hn
